@@ -43,8 +43,8 @@ ASSUMPTIONS = ['Manifest texts are valid UTF-8 and valid compressed streams (the
 DAMAGE = ['dup-line', 'drop-line', 'dup-ignore', 'unknown-tag', 'unknown-hash', 'whirlpool', 'bad-size', 'neg-size',
           'huge-size', 'esc-overflow', 'esc-above-unicode', 'esc-surrogate', 'esc-nul', 'esc-bad', 'empty-path',
           'abs-path', 'dotdot-path', 'names-dir', 'beneath-file', 'crlf', 'tabs', 'trailing-space', 'bad-timestamp',
-          'short-line', 'odd-checksum-count', 'ignore-top', 'ignore-dot', 'aux-no-files', 'dist-slash',
-          'manifest-self', 'manifest-missing', 'dup-manifest-entry', 'blank-lines', 'long-line', 'unicode-space',
+          'short-line', 'odd-checksum-count', 'ignore-top', 'ignore-dot', 'aux-no-files', 'aux-abs', 'dist-slash',
+          'manifest-self', 'manifest-cycle', 'manifest-cycle-3', 'manifest-back-ref', 'manifest-missing', 'dup-manifest-entry', 'blank-lines', 'long-line', 'unicode-space',
           'size-superscript', 'size-circled', 'size-arabic-indic', 'size-fullwidth', 'size-plus', 'size-underscore',
           'size-float', 'size-hex', 'hash-value-odd', 'tag-lowercase', 'tag-unicode', 'path-only-escape']
 
@@ -249,10 +249,39 @@ def apply_damage(w, sc, d):
     elif k == 'aux-no-files':
         lines.append('AUX ../escape 1')
         lines.append('AUX ' + (sl[1] if len(sl) > 1 else 'x') + ' 1')
+    elif k == 'aux-abs':
+        lines.append(('AUX /abs-aux 1', 'AUX \\x2F 1', 'AUX / 1', 'AUX //x 1')[d['idx'] % 4])
     elif k == 'dist-slash':
         lines.append('DIST a/b 1')
     elif k == 'manifest-self':
         lines.append('MANIFEST %s 0' % os.path.basename(d['p']))
+    elif k in ('manifest-cycle', 'manifest-cycle-3', 'manifest-back-ref'):
+        # Manifests of one directory referencing each other in a cycle (the back reference is size-only and need
+        # not match: its target is already loaded when it is met)
+        import hashlib as _hl
+        me = os.path.basename(d['p'])
+        back = None
+        if k == 'manifest-back-ref':
+            for m_ in sc['manifests']:
+                if os.path.dirname(m_['p']) == mdir and m_['p'] != d['p'] and any(
+                        e_.get('tag') == 'MANIFEST' and e_.get('path') == me for e_ in m_['entries']):
+                    back = os.path.basename(m_['p'])
+        if back is not None:
+            lines.append('MANIFEST %s %d' % (G.enc_path(back), d['idx']))
+        else:
+            names = [('Manifest.cyc', 'more')[d['idx'] % 2]]
+            if k == 'manifest-cycle-3':
+                names.append('Manifest.cyc2')
+            target = me
+            for nm in reversed(names):
+                body = ('MANIFEST %s %d\n' % (G.enc_path(target), d['idx'] % 7)).encode('utf8')
+                try:
+                    with _o['open'](os.path.join(w.root, mdir, nm), 'wb') as f:
+                        f.write(body)
+                except OSError:
+                    return False
+                target = nm
+            lines.append('MANIFEST %s %d SHA256 %s' % (target, len(body), _hl.sha256(body).hexdigest()))
     elif k == 'manifest-missing':
         lines.append('MANIFEST nowhere/Manifest 0')
     elif k == 'dup-manifest-entry':
